@@ -56,7 +56,10 @@ def text_ok(e, extra_ns=None):
     if extra_ns:
         ns.update(extra_ns)
     text = realize(repr(e))
-    back = eval(text, ns)  # noqa: S307
+    try:
+        back = eval(text, ns)  # noqa: S307
+    except Exception:  # noqa: the repr does not evaluate
+        return False
     return back == e and e == back and type(back) is type(e)
 
 
@@ -65,7 +68,10 @@ def prop_ok(p, name):
     from vf.common import Element, public_ns, realize
 
     owner = Element(properties={name: p})
-    back = eval(realize(repr(owner)), public_ns())  # noqa: S307
+    try:
+        back = eval(realize(repr(owner)), public_ns())  # noqa: S307
+    except Exception:  # noqa
+        return False
     if not (back == owner):
         return False
     q = back.properties[name]
@@ -99,6 +105,9 @@ ELEMS = {
     "oneof_allof": ("f1: bool, n: int", [], "(OneOf(Integer(minimum=n), Element(), Nothing()) if f1 else AllOf(Element(maximum=n), Not(Null())))"),
     "not": ("f1: bool, n: int", [], "Not(Integer(minimum=n), **({'default': n} if f1 else {}))"),
     "nothing": ("f1: bool", [], "(Nothing() if f1 else Element())"),
+    "shared_in_tuple": ("n: int", [], "(lambda s: Array([s, s, Array(s)]))(String(minLength=n))"),
+    "shared_in_composition": ("n: int", [], "(lambda s: AnyOf(s, Array(s), Not(s)))(Integer(minimum=n))"),
+    "shared_in_properties": ("n: int, r: bool", [], "(lambda s: Element(properties={'a': Property(s, required=r), 'b': Property(s)}, additionalProperties=s, contains=s))(Integer(maximum=n))"),
     "nested": ("n: int, u: bool", [], "Array(AnyOf(Array(Integer(maximum=n), uniqueItems=u), Element(properties={'x': Property(Not(String(minLength=n)), required=u)})))"),
 }
 
@@ -109,7 +118,7 @@ def harnesses(ctx) -> List[H]:
         hs.append(mk(f"c18_args_{name}", args, pre, f"return args_ok({expr})", timeout=120, group="args",
                      tier="quick", covers=expr))
         hs.append(mk(f"c18_text_{name}", args, pre, f"return text_ok({expr})", timeout=45, group="text", expect="unknown",
-                     tier="quick" if name in ("element_literals", "element_props", "array_tuple", "anyof", "string") else "thorough",
+                     tier="quick" if name in ("element_literals", "element_props", "array_tuple", "anyof", "string", "shared_in_tuple", "shared_in_composition", "shared_in_properties") else "thorough",
                      covers="eval(repr(e)) == e on realised text"))
     # property wrappers
     hs.append(mk("c18_property_in_owner", "r: bool, src: int, n: int", ["0 <= src <= 2"],
@@ -126,7 +135,10 @@ def harnesses(ctx) -> List[H]:
 def text_ok_prop(p):
     from vf.common import public_ns, realize
 
-    back = eval(realize(repr(p)), public_ns())  # noqa: S307
+    try:
+        back = eval(realize(repr(p)), public_ns())  # noqa: S307
+    except Exception:  # noqa
+        return False
     return back == p and back.required == p.required and back.source == p.source
 
 
